@@ -67,6 +67,26 @@ def cases(tier: str, rng: random.Random) -> List[Case]:
                 m = rng.choice(["sync", "async"])
                 out.append(std_case(("ListV", ch, [], [], None), ("VList", [a, b, a]), m, tag="a:lookalikes"))
                 out.append(std_case(("MapV", ch, ch, [], [], None), ("VDict", [P(G.S("k"), a), P(G.S("j"), b)]), m, tag="a:lookalikes"))
+    # instances of record classes holding other instances / opaque objects (read field by field, never copied)
+    for v, x in G.instance_cases(rng):
+        for m in ("sync", "async"):
+            out.append(std_case(v, x, m, tag="a:instances"))
+    # equality validators with processors: a mismatch is reported about the processed value (the value the
+    # comparison saw), a wrong type about the caller's own object
+    for mt, pre in ((G.S("ok"), [("Strip",)]), (G.S("OK"), [("Strip",), ("Upper",)]), (G.B(b"ok"), [("Lower",)]), (G.I(2), [("ProcUser", N(1))])):
+        for x in (G.S(" no "), G.S(" ok "), G.S("ok"), G.B(b"NO"), G.B(b"OK"), G.I(1), G.I(2), G.NONE, G.STRSUB):
+            for wrapv, wrapx in ((lambda z: z, lambda y: y), (lambda z: ("ListV", z, [], [], None), lambda y: ("VList", [y, y])),
+                                 (lambda z: ("DictAnyV", [P(G.S("k"), z)], None, None, False), lambda y: ("VDict", [P(G.S("k"), y)]))):
+                for m in ("sync", "async"):
+                    out.append(std_case(wrapv(("EqualsV", mt, pre)), wrapx(x), m, tag="a:equals-pre"))
+    # a coercer that builds a fresh container + children that change their items: the container error still
+    # holds the coerced container as it was, not one half-rewritten with payloads
+    for v, x in ((("ListV", STRIP, [], [], Some(("CoUser", N(3)))), ("VTuple", [G.S(" a "), G.S(" b "), G.S(""), G.S("c")])),
+                 (("UTupleV", STRIP, [], [], Some(("CoTupleOrList",))), ("VList", [G.S(" a "), G.S("  "), G.S("c ")])),
+                 (("UTupleV", DEC, [], [], Some(("CoUser", N(6)))), ("VList", [G.S("1.5"), G.S("x"), G.I(2)])),
+                 (("NTupleV", [STRIP, DEC, STRIP], None, Some(("CoTupleOrList",))), ("VList", [G.S(" a "), G.S("zz"), G.S(" ")]))):
+        for m in ("sync", "async"):
+            out.append(std_case(v, x, m, tag="a:fresh-container"))
     # mappings that are not plain dicts (the caller's own object is what the error must hold)
     INT = ("Scalar", ("KInt",), None, [], [], [])
     for t in [("RecordV", [P(G.S("a"), INT), P(G.S("b"), ("KeyNotRequired", INT))], N(2), None, None, rng.random() < 0.5),
@@ -189,6 +209,10 @@ def child_inputs(v: Any, x: Any, e: Any) -> List[Any]:
             return [x[i] if 0 <= i < len(x) else _NOARG for i in e.indexes.keys()]
         if isinstance(e, KE.KeyErrs) and isinstance(x, dict):
             return [x[k] if k in x else _NOARG for k in e.keys.keys()]
+        if isinstance(e, KE.KeyErrs) and name in ("DataclassValidator", "NamedTupleValidator") and getattr(v, "coerce", None) is None \
+                and type(x) is getattr(v, "data_cls", getattr(v, "named_tuple_cls", None)):
+            # an instance of the target class is read field by field: each field validator has the field's own value in hand
+            return [getattr(x, k) if isinstance(k, str) and hasattr(x, k) else _NOARG for k in e.keys.keys()]
         if isinstance(e, KE.MapErr) and isinstance(x, dict):
             out = []
             for k, kv in e.keys.items():
